@@ -88,6 +88,8 @@ class FloatFacade(builtins.float, metaclass=_FloatMeta):
     def __new__(cls, x=0.0):
         if isinstance(x, SymNum):
             return SymNum(x.terms, False).lower() if x.is_int else x
+        if hasattr(x, '__symvalue__'):
+            return FloatFacade(x.__symvalue__())
         return builtins.float(x)
 
 
@@ -728,6 +730,10 @@ def install(extra=None, silence=True):
             if em is None or em == mname:
                 if name in d:
                     _installed.append((d, name, d[name], True))
+                    d[name] = new
+                elif em == mname and hasattr(builtins, name):
+                    # a builtin the module uses (e.g. str): shadow it in that module's namespace only
+                    _installed.append((d, name, None, False))
                     d[name] = new
 
 
